@@ -346,7 +346,7 @@ func indexOf(xs []string, x string) int {
 // checkAllow is the C04 monitor: five views of every live pattern's method set, and OPTIONS *.
 func (h *hist) checkAllow() {
 	c, s := h.c, h.s
-	routes := s.R.Routes()
+	routes := takeRoutes(s.R)
 	c.Eval()
 	if msg := s.CompareRoutes(); msg != "" { // Routes() is one of the views: it must list exactly the live patterns
 		h.violate(msg, nil)
@@ -426,7 +426,7 @@ func (h *hist) checkAllow() {
 // checkHead is the history part of C08: HEAD exactly as long as GET, OPTIONS for every live pattern.
 func (h *hist) checkHead() {
 	c, s := h.c, h.s
-	routes := s.R.Routes()
+	routes := takeRoutes(s.R)
 	for i, p := range h.pool {
 		pp := h.parsed[p]
 		w, _ := Witness(pp, i)
@@ -483,7 +483,7 @@ func (h *hist) checkHead() {
 
 // snapshot is the whole observable state used by C17.
 func (h *hist) snapshot() (string, []outcome) {
-	routes := h.s.R.Routes()
+	routes := takeRoutes(h.s.R)
 	ks := make([]string, 0, len(routes))
 	for k := range routes {
 		ks = append(ks, k)
